@@ -504,6 +504,17 @@ def r1_5(ctx):
                     st.lineno,
                 )
     ctx.floor("R1.5", n, 3, "sites that raise self.idling")
+    # IDLE raises it, DONE lowers it - on every normal path through the handler
+    for key, val, what in (("client.BaseClientHandler.do_idle", True, "IDLE never switches the session to push mode: updates are not delivered while idling"), ("client.BaseClientHandler.do_done", False, "DONE leaves the session in push mode: EXPUNGEs are pushed in the middle of its later commands")):
+        fi = p.func(key)
+        g = ctx.cfg(fi)
+        st = {nd.id for nd in g.nodes if nd.kind == "stmt" and isinstance(nd.ast, ast.Assign) and norm(nd.ast.targets[0]) == "self.idling" and isinstance(nd.ast.value, ast.Constant) and nd.ast.value.value is val}
+        w = flow.escapes_without(g, g.entry, lambda x: x in st, {g.exit}, flow.NORMAL)
+        ctx.paths_explored += 1
+        if st and w is None:
+            ctx.ok("R1.5", where(fi), f"self.idling = {val} on every normal path")
+        else:
+            ctx.bad("R1.5", fi.module, fi.qual, f"self.idling = {val}", what, fi.node.lineno, flow.fmt_path(g, w) if w else "")
 
 
 def run(ctx):
